@@ -1300,6 +1300,9 @@ func (s *Server) reclaimLapsedLease(lease *Lease) {
 	}
 
 	s.removeFromFastPath(lease.MAC, lease)
+
+	// The session is over: Accounting-Stop, QoS policy, NAT port block
+	s.releaseSessionResources(lease.MAC, lease, radius.TerminateCauseSessionTimeout)
 }
 
 // cleanupExpiredLeases removes expired leases
